@@ -221,23 +221,41 @@ func (c *Ctx) finalizeFn() *ssa.Function {
 			continue
 		}
 		// a value-receiver accessor returning the content
-		res := fn.Signature.Results()
-		if res.Len() != 1 {
+		if fn.Signature.Results().Len() != 1 {
 			continue
 		}
 		accessors++
-		for _, g := range c.staticCallees(fn) {
-			if recvNamed(g) == tBuffer && (g.Object() == nil || !g.Object().Exported()) && c.reach(g, true)[esc] {
+		// pointer-receiver unexported methods of Buffer it reaches (directly
+		// or through a shared helper) that reach the escape routine
+		for g := range c.reach(fn, false) {
+			if recvNamed(g) != tBuffer || (g.Object() != nil && g.Object().Exported()) || g.Signature.Recv() == nil {
+				continue
+			}
+			if _, isPtr := g.Signature.Recv().Type().(*types.Pointer); !isPtr {
+				continue
+			}
+			if c.reach(g, true)[esc] {
 				count[g]++
 			}
 		}
 	}
-	var best *ssa.Function
+	var cands []*ssa.Function
 	for g, n := range count {
 		if n == accessors && accessors >= 2 {
-			if best == nil || g.String() < best.String() {
-				best = g
+			cands = append(cands, g)
+		}
+	}
+	// the outermost one: not reached from another candidate
+	var best *ssa.Function
+	for _, g := range cands {
+		inner := false
+		for _, h := range cands {
+			if h != g && c.reach(h, false)[g] {
+				inner = true
 			}
+		}
+		if !inner && (best == nil || g.String() < best.String()) {
+			best = g
 		}
 	}
 	return best
